@@ -41,6 +41,7 @@ type Contract struct {
 	LoopInv  map[int][]*Clause
 	LoopDec  map[int]*Clause
 	LoopMod  map[int][]*Expr // loop frame: locations the loop body may modify (for the keys they name)
+	LoopAsm  map[int][]*Clause // assumed (not proved) at the loop head, reported as an assumption
 	LoopEns  map[int][]*Clause // per-iteration postconditions, checked at every back edge; iter(e) = value at the loop head
 	Params   []string // for iface / functype contracts: parameter names
 	File     string
@@ -55,7 +56,19 @@ type TypeInv struct {
 	Clause *Clause
 }
 
+// Published: `published Bar.bs [props ..] mutable f1 f2` — the object behind the named pointer
+// field is shared between goroutines once it is stored there; the listed fields may still be
+// written (by the one unexported late user), all others are frozen.
+type Published struct {
+	Pkg, Struct, Field string
+	Props              []string
+	Mutable            []string
+	File               string
+	Line               int
+}
+
 type SpecFile struct {
+	Published []*Published
 	TypeInvs  []*TypeInv
 	Contracts []*Contract
 	Lemmas    []*Lemma
@@ -159,7 +172,7 @@ func parseSpecFile(path, pkgPath string, sf *SpecFile) error {
 					kind = "func"
 				}
 				cur = &Contract{Kind: kind, Name: rest, Pkg: pkgPath, File: path, Line: i + 1,
-					LoopInv: map[int][]*Clause{}, LoopDec: map[int]*Clause{}, LoopMod: map[int][]*Expr{}, LoopEns: map[int][]*Clause{}}
+					LoopInv: map[int][]*Clause{}, LoopDec: map[int]*Clause{}, LoopMod: map[int][]*Expr{}, LoopEns: map[int][]*Clause{}, LoopAsm: map[int][]*Clause{}}
 				sf.Contracts = append(sf.Contracts, cur)
 			case "chan":
 				// chan <Type.field> invariant <expr over v>
@@ -227,6 +240,29 @@ func parseSpecFile(path, pkgPath string, sf *SpecFile) error {
 				}
 				sf.Defs[name] = &SpecDef{Name: name, Params: params, Body: e}
 				cur = nil
+			case "published":
+				// published Bar.bs [props C10] mutable shutdown ...
+				cur = nil
+				toks := strings.Fields(rest)
+				if len(toks) < 2 || !strings.Contains(toks[0], ".") {
+					return fmt.Errorf("%s:%d: bad published declaration", path, i+1)
+				}
+				dot := strings.Index(toks[0], ".")
+				pb := &Published{Pkg: pkgPath, Struct: toks[0][:dot], Field: toks[0][dot+1:], File: path, Line: i + 1}
+				mode := ""
+				for _, t := range toks[1:] {
+					switch {
+					case t == "props" || t == "mutable":
+						mode = t
+					case mode == "props":
+						pb.Props = append(pb.Props, t)
+					case mode == "mutable":
+						pb.Mutable = append(pb.Mutable, t)
+					default:
+						return fmt.Errorf("%s:%d: bad published declaration near %q", path, i+1, t)
+					}
+				}
+				sf.Published = append(sf.Published, pb)
 			case "lemma":
 				// lemma name props C09 C11 forall x int64, y bool :: expr
 				cur = nil
@@ -408,6 +444,16 @@ func addClause(c *Contract, kw, text, file string, line int) error {
 			}
 			cl.Loop = n
 			c.LoopEns[n] = append(c.LoopEns[n], cl)
+		case "assumes":
+			cl, err := mk("loopassume", fs[2])
+			if err != nil {
+				return err
+			}
+			cl.Loop = n
+			if c.LoopAsm == nil {
+				c.LoopAsm = map[int][]*Clause{}
+			}
+			c.LoopAsm[n] = append(c.LoopAsm[n], cl)
 		case "decreases":
 			cl, err := mk("decreases", fs[2])
 			if err != nil {
